@@ -160,3 +160,24 @@ VARIANTS += [
       "        dtype: Final[np.dtype] = int_range_to_dtype(\n"
       "            min_value=-1, max_value=days)", "silent"),
 ]
+
+VARIANTS += [
+    V("evaluate-away-max-from-home-max", "moptipyapps/ttp/errors.py",
+      "                            inst.away_streak_min, "
+      "inst.away_streak_max,\n",
+      "                            inst.away_streak_min, "
+      "inst.home_streak_max,\n", "fire", "D7.3"),
+    V("evaluate-separation-swapped", "moptipyapps/ttp/errors.py",
+      "                            inst.separation_min, "
+      "inst.separation_max,\n",
+      "                            inst.separation_max, "
+      "inst.separation_min,\n", "fire", "D7.3"),
+    V("silent-evaluate-keywords", "moptipyapps/ttp/errors.py",
+      "                            inst.separation_min, "
+      "inst.separation_max,\n",
+      "                            separation_max=inst.separation_max, "
+      "separation_min=inst.separation_min,\n"
+      "                            temp_1=self.__temp_1, "
+      "temp_2=self.__temp_2)\n\n    def _unused(self):\n        return (0,\n",
+      "silent"),
+]
